@@ -255,6 +255,16 @@ func c01RoundOpt(r *fw.Run, g *Rig, prop string, cc *c01Case, exact bool, barrie
 		dialled.Add(n)
 		hooks = &exchangeHooks{afterDial: func() { dialled.Done(); dialled.Wait() }}
 	}
+	// stallSeen: every stalled client that sends something has seen the first byte of the answer (its handler is in the
+	// middle of a write that the client will not take) - the connections that wait for such a handler start after that
+	var stallPending sync.WaitGroup
+	for _, cs := range cc.Conns {
+		if d, _, _ := cs.plan(); cs.Stall && len(d) > 0 {
+			stallPending.Add(1)
+		}
+	}
+	stallSeen := make(chan struct{})
+	go func() { stallPending.Wait(); close(stallSeen) }()
 	for i, cs := range cc.Conns {
 		data, bounds, frames := cs.plan()
 		models[i] = modelConn(frames, g.Reg)
@@ -262,7 +272,14 @@ func c01RoundOpt(r *fw.Run, g *Rig, prop string, cc *c01Case, exact bool, barrie
 			wgStall.Add(1)
 			go func(i int, data []byte) {
 				defer wgStall.Done()
-				ex, err := rawStall(hooks, g.Net, g.Dial, data, release)
+				var once sync.Once
+				fb := func() {
+					if len(data) > 0 {
+						once.Do(stallPending.Done)
+					}
+				}
+				ex, err := rawStall(hooks, g.Net, g.Dial, data, release, fb)
+				fb()
 				obs[i] = connObs{ex, err}
 			}(i, data)
 			continue
@@ -280,7 +297,11 @@ func c01RoundOpt(r *fw.Run, g *Rig, prop string, cc *c01Case, exact bool, barrie
 				for !g.Log.hasStart(waitFor) && time.Now().Before(dl) {
 					time.Sleep(200 * time.Microsecond)
 				}
-				time.Sleep(30 * time.Millisecond)
+				select {
+				case <-stallSeen:
+				case <-time.After(12 * time.Second):
+				}
+				time.Sleep(10 * time.Millisecond)
 			}
 			ex, err := rawExchangeH(hooks, g.Net, g.Dial, data, seg, end, 40*time.Second, slow)
 			obs[i] = connObs{ex, err}
